@@ -1,6 +1,7 @@
 package main
 
 import (
+	"reflect"
 	"errors"
 	"fmt"
 
@@ -166,6 +167,22 @@ func runtimeBytes(c nestCase) ([]byte, bool) {
 	return nil, false
 }
 
+// soil puts an unknown field into a runtime-owned message (false: the value is not one)
+func soil(m interface{}) bool {
+	switch x := m.(type) {
+	case proto.Message:
+		x.ProtoReflect().SetUnknown([]byte{0x98, 0x06, 0x01})
+		return true
+	case gogoproto.Message:
+		f := reflect.ValueOf(x).Elem().FieldByName("XXX_unrecognized")
+		if f.IsValid() && f.CanSet() {
+			f.SetBytes([]byte{0x98, 0x06, 0x01})
+			return true
+		}
+	}
+	return false
+}
+
 func famNest(thorough bool) {
 	cases := nestCases()
 	fns := []int{1, 15, 16, 2048, 1<<29 - 1}
@@ -286,6 +303,38 @@ func famNest(thorough bool) {
 				doCall(d, ib, call{op: "Bool"}, true, tr.Word(1), nil)
 			}
 			doCall(d, ib, call{op: "More"}, true, []int{0}, nil)
+			// the same field decoded into a destination that already holds something (here: an unknown field): the bridge hands the
+			// payload - also an EMPTY one - to the owning runtime, whose Unmarshal starts from a reset message
+			if dirty := c.fresh(); soil(dirty) {
+				d2 := newDecoder(ib)
+				if pre > 0 {
+					doCall(d2, ib, call{op: "Tag"}, true, []int{1, 2}, nil)
+					doCall(d2, ib, call{op: "Bytes"}, true, []int{0x42}, nil)
+				}
+				doCall(d2, ib, call{op: "Tag"}, true, []int{fn, 2}, nil)
+				ne2 := &tr.Ev{C: "dec", Op: "NestedMsg", P: d2.Offset(), Mode: 0, Hx: 1, Note: "pre-populated destination"}
+				func() {
+					defer func() {
+						if r := recover(); r != nil {
+							ne2.St = "panic"
+							ne2.Note = fmt.Sprint(r)
+						}
+					}()
+					err = d2.DecodeNested(dirty)
+				}()
+				if ne2.St == "" {
+					if err != nil {
+						ne2.St, ne2.Note = "err", err.Error()
+					} else {
+						ne2.St = "ok"
+						if c.equal(c.msg, dirty) {
+							ne2.Same = 1
+						}
+					}
+				}
+				ne2.Off = d2.Offset()
+				w.Emit(ne2)
+			}
 			// truncations of the nested field (it is the last field when pos != 1): stub decoder, both modes
 			if pos != 1 && len(mb) > 0 {
 				full := buf[:enc.VerifOffset()]
